@@ -40,7 +40,11 @@
    INSERT 1; flush; INSERT 2; torn flush writing t's leaf only; recovery; INSERT 3 -> error). The
    invariant "keys <= lastKey after recovery" was unprovable for the torn state, which exposed it.
    Now the counter is raised for every insert record before the skip test, and the invariant is
-   proved (C04_ids_after_torn_flush); C04_no_stale_ids replays the old failing history. *)
+   proved (C04_ids_after_torn_flush); C04_no_stale_ids replays the old failing history.
+
+   The last section of the file restates C04_partial / C04_ids_after_torn_flush / C04_continues /
+   C04_second_crash WITHOUT the hypotheses (H1) / (H2) of `hist_ok`, under the boolean `hist_ok2`
+   (the `_noH1H2` theorems). *)
 From Coq Require Import List NArith ZArith String.
 From Mkdb Require Import Model.Engine Proofs.TreeProofs Proofs.StoreInv Proofs.CrashBase Proofs.CrashPages
   Proofs.CrashRedo Proofs.CrashLog Proofs.CrashMain Proofs.CrashPrefix Proofs.CrashHist Proofs.CrashTorn
@@ -273,3 +277,86 @@ Example C04_oracle_rejects :
     firstn 19 (run_h init_sys hx_torn_short) ++ [HOut OBok; HTables [("u", TRows ["b"] [(24%N, [VInt 1])])]]) = false /\
   spec_accepts_strict (hx_torn_short, firstn 19 (run_h init_sys hx_torn_short) ++ [HOut (OBerr ECorrupt); HDead]) = false.
 Proof. vm_compute. repeat split; reflexivity. Qed.
+
+(* ---- the theorems above WITHOUT (H1) and WITHOUT (H2) ----
+   C04_partial / C04_ids_after_torn_flush / C04_continues / C04_second_crash assume C02's `hist_ok`
+   of the history: (H1) `stmt_atomic` and (H2) `stmt_moves_ok` for every statement. Both are derived
+   here, as in C02's sections E / F and in C03's section (3), from the refinement invariant
+   `SelfOk (mem y) /\ exists d, Rep (mem y) d`, which Proofs/MovesFromRep.v RInv_step re-establishes
+   after the recovery that `EvTornFlush W` performs (the recovered cache equals the lost one up to
+   dirty flags) and after the one of `EvCrashInLog st j`. So both events are events of the boolean,
+   H-free histories `hist_ok2` (Proofs/HistNoH1.v), with `ev_ok2 y (EvTornFlush W) = true`: a torn
+   flush asks nothing (when the model has no torn file for W the step fails and the history ends
+   there). No further side condition is needed. C04_continues_noH1H2 returns `hist_ok2` of the
+   extended history, so the theorems chain. *)
+From Mkdb Require Import Proofs.RefineRep Proofs.MovesFromRep Proofs.HistNoH1 Proofs.CrashNoH.
+
+Theorem C04_partial_noH1H2 : forall evs y os W d,
+  hist_ok2 init_sys evs = true -> run_events init_sys evs = (SOk y, os) -> torn_disk y W = Some d ->
+  exists y', recover (mkSys d d (wal y)) = Ok y' /\ step y (EvTornFlush W) = (SOk y', None) /\
+             CrashBase.seq (mem y') (mem y) /\ abs (mem y') = abs (mem y).
+Proof. intros evs y os W d H. exact (C04_partial evs y os W d (hist_ok2_hist_ok evs H)). Qed.
+Print Assumptions C04_partial_noH1H2.
+
+Theorem C04_ids_after_torn_flush_noH1H2 : forall evs y os W y',
+  hist_ok2 init_sys evs = true -> run_events init_sys evs = (SOk y, os) -> step y (EvTornFlush W) = (SOk y', None) ->
+  SInv (mem y') /\
+  Forall (fun t => Forall (fun k => k <= lastKey (mem y')) (tree_keys t)) (forest (mem y')) /\
+  Forall (fun t => Forall (fun n => t_lsn n < nextLSN (mem y')) (nodes t)) (forest (mem y')).
+Proof. intros evs y os W y' H. exact (C04_ids_after_torn_flush evs y os W y' (hist_ok2_hist_ok evs H)). Qed.
+Print Assumptions C04_ids_after_torn_flush_noH1H2.
+
+Theorem C04_continues_noH1H2 : forall evs y os W y',
+  hist_ok2 init_sys evs = true -> run_events init_sys evs = (SOk y, os) -> step y (EvTornFlush W) = (SOk y', None) ->
+  exists os', hist_ok2 init_sys (evs ++ [EvTornFlush W]) = true /\
+              run_events init_sys (evs ++ [EvTornFlush W]) = (SOk y', os').
+Proof. exact torn_flush_continues_noH. Qed.
+Print Assumptions C04_continues_noH1H2.
+
+Theorem C04_second_crash_noH1H2 : forall evs y os W d g' W2 d2,
+  hist_ok2 init_sys evs = true -> run_events init_sys evs = (SOk y, os) ->
+  torn_disk y W = Some d -> replay d (wal y) = RCont g' ->
+  torn_disk (mkSys g' d (wal y)) W2 = Some d2 ->
+  torn_disk y (W ++ W2) = Some d2 /\
+  exists y', recover (mkSys d2 d2 (wal y)) = Ok y' /\ CrashBase.seq (mem y') (mem y) /\ abs (mem y') = abs (mem y).
+Proof. intros evs y os W d g' W2 d2 H. exact (C04_second_crash evs y os W d g' W2 d2 (hist_ok2_hist_ok evs H)). Qed.
+Print Assumptions C04_second_crash_noH1H2.
+
+(* ... and after it the cache represents a database of the specification again *)
+Theorem C04_rep_after_torn_flush : forall evs y os,
+  hist_ok2 init_sys evs = true -> run_events init_sys evs = (SOk y, os) ->
+  SelfOk (mem y) /\ exists d, Rep (mem y) d.
+Proof. exact hist_ok2_rep_all. Qed.
+Print Assumptions C04_rep_after_torn_flush.
+
+(* non-vacuity: ex_inplace, a torn flush that writes t's rightmost leaf and u's leaf but not t's
+   first leaf (the model has a torn file for it, and the file differs from the cache), a further
+   insert, a second torn flush that writes nothing, a refused INSERT, a crash inside the log append
+   of a DELETE, a crash-restart: the history satisfies the boolean hypothesis and no step fails *)
+Definition ex_torn_hist : list event :=
+  ex_inplace ++
+  [EvTornFlush [16384; 24576]%N;
+   ins "u" 3;
+   EvTornFlush [];
+   EvStmt (SInsert "t" [] [[VInt 2147483648]]);
+   EvCrashInLog (SDelete "t" (Some (EPred (XCol (mkCol "" "a")) CLt (XLit (VInt 3))))) 1;
+   EvCrash].
+
+Example C04_noH1H2_nonvacuous :
+  hist_ok2 init_sys ex_torn_hist = true /\
+  (exists y os d, run_events init_sys ex_inplace = (SOk y, os) /\
+                  torn_disk y [16384; 24576]%N = Some d /\ abs d <> abs (mem y)) /\
+  match run_events init_sys ex_torn_hist with
+  | (SOk y, os) =>
+      skipn 19 os = [None; Some (OOk 1); None; Some (OErr EIntRange); None; None] /\
+      (match st_fetch (mem y) "t" with Ok (rows, _) => List.length rows | _ => O end) = 10%nat /\
+      (match st_fetch (mem y) "u" with Ok (rows, _) => List.length rows | _ => O end) = 3%nat
+  | _ => False
+  end.
+Proof.
+  split; [vm_compute; reflexivity|]. split.
+  - destruct (run_events init_sys ex_inplace) as [fin os] eqn:E.
+    vm_compute in E. inversion E; subst. eexists _, _, _. split; [reflexivity|].
+    split; [vm_compute; reflexivity | vm_compute; discriminate].
+  - vm_compute. repeat split; reflexivity.
+Qed.
